@@ -267,7 +267,7 @@ impl<'a> Gen<'a> {
             }
             10 => format!(r#"<feMorphology{a} operator="{}" radius="{}"/>"#, self.rng.pick(&["erode", "dilate"]), num(self.rng.f32_in(0.3, 3.0))),
             11 => format!(r#"<feDisplacementMap{a}{in2} scale="{}" xChannelSelector="R" yChannelSelector="G"/>"#, num(self.rng.f32_in(-10.0, 10.0))),
-            12 => format!(r#"<feTurbulence{res}{sub}{cif} type="{}" baseFrequency="{}" numOctaves="{}" seed="{}"/>"#, self.rng.pick(&["turbulence", "fractalNoise"]), num(self.rng.f32_in(0.01, 0.2)), 1 + self.rng.below(2), self.rng.below(20)),
+            12 => format!(r#"<feTurbulence{res}{sub}{cif} type="{}" baseFrequency="{}" numOctaves="{}" seed="{}"/>"#, self.rng.pick(&["turbulence", "fractalNoise"]), num(self.rng.f32_in(0.01, 0.2)), 1 + self.rng.below(2), if self.rng.chance(1, 6) { self.rng.pick(&["-2147483648", "2147483647", "-1", "-2147483647", "4294967296", "-0.5", "1e300"]).to_string() } else { self.rng.below(20).to_string() }),
             13 | 14 => {
                 let light = match self.rng.below(3) {
                     0 => format!(r#"<feDistantLight azimuth="{}" elevation="{}"/>"#, self.rng.range(0, 360), self.rng.range(10, 80)),
